@@ -649,13 +649,32 @@ def try_to_hashable(
         return UnhashableError
 
 
+def _order_key(obj: Any) -> tuple:  # noqa: PLR0911
+    """Process-independent total order over hashable objects (dict keys / set elements)."""
+    if obj is None:
+        return (0,)
+    if isinstance(obj, bool | int | float):
+        return (1, obj)
+    if isinstance(obj, complex):
+        return (2, obj.real, obj.imag)
+    if isinstance(obj, str):
+        return (3, obj)
+    if isinstance(obj, bytes):
+        return (4, obj)
+    if isinstance(obj, tuple):
+        return (5, type(obj).__qualname__, tuple(_order_key(x) for x in obj))
+    if isinstance(obj, frozenset):
+        return (6, tuple(sorted(_order_key(x) for x in obj)))
+    return (7, type(obj).__module__, type(obj).__qualname__, _cloudpickle_key(obj))
+
+
 def _hashable_iterable(
     iterable: Iterable,
     fallback_to_pickle: bool,  # noqa: FBT001
     *,
     sort: bool = False,
 ) -> tuple:
-    items = sorted(iterable) if sort else iterable
+    items = sorted(iterable, key=_order_key) if sort else iterable
     return tuple(to_hashable(item, fallback_to_pickle) for item in items)
 
 
@@ -665,7 +684,7 @@ def _hashable_mapping(
     *,
     sort: bool = False,
 ) -> tuple:
-    items = sorted(mapping.items()) if sort else mapping.items()
+    items = sorted(mapping.items(), key=lambda kv: _order_key(kv[0])) if sort else mapping.items()
     return tuple((k, to_hashable(v, fallback_to_pickle)) for k, v in items)
 
 
@@ -726,7 +745,7 @@ def to_hashable(  # noqa: C901, PLR0911, PLR0912
         )
         return (m, tp, data)
     if isinstance(obj, collections.Counter):
-        return (m, tp, tuple(sorted(obj.items())))
+        return (m, tp, _hashable_mapping(obj, fallback_to_pickle, sort=True))
     if isinstance(obj, dict):
         return (m, tp, _hashable_mapping(obj, fallback_to_pickle, sort=True))
     if isinstance(obj, set | frozenset):
